@@ -55,6 +55,78 @@ func mineralBooks(p *Prog, r *Report, rule string) {
 	hiS := stripVersions(hi).String()
 	okH := strings.Contains(hiS, "idiv(") && strings.Contains(hiS, "GlobalVarsMain.IZM")
 	r.Ob("range", pos, okR && okH, fmt.Sprintf("mineralisation loop runs %s .. %s in unit steps (must start at layer 1 and end at the mineralisation depth / layer thickness) %s", polyOr(lo), hiS, why))
+	// the mineralisation depth stays inside the profile: every function that sets it ends, on every path that set it,
+	// with the clamp 'depth / layer thickness > N  →  depth = N · layer thickness' (a thin profile would otherwise be
+	// swept beyond its last layer, where the pore volume is 0 and the moisture ratio 0/0)
+	{
+		izm := "GlobalVarsMain.IZM"
+		for _, w := range p.Fields().Writers(FieldRef{"GlobalVarsMain", "IZM"}) {
+			if strings.HasPrefix(w.Key, "hermes.NewDefault") || w.Key == "hermes.NewGlobalVarsMain" {
+				continue
+			}
+			wx := walked(p, w.Key)
+			if wx == nil {
+				r.Ob("depth-in-profile:"+short(w.Key), p.Pos(w.Decl.Pos()), false, "writer of the mineralisation depth not analysable")
+				continue
+			}
+			var clamp *Event
+			lastOther := -1
+			for _, e := range wx.Events {
+				if e.Kind != "assign" || e.Root != izm {
+					continue
+				}
+				v := stripVersions(e.Val)
+				// depth = X · layer thickness under X < depth / layer thickness, X the number of layers (the field, or the value this function just stored into it)
+				X := v.Div(cellP("GlobalVarsMain.DZ.Index"))
+				isN := X.Equal(cellP("GlobalVarsMain.N"))
+				for _, ne := range wx.Events {
+					if ne.Kind == "assign" && ne.Root == "GlobalVarsMain.N" && ne.Seq < e.Seq && stripVersions(ne.Val).Equal(X) {
+						isN = true
+					}
+				}
+				isClamp := isN && e.HasGuard(func(c *Cond) bool {
+					if c.Kind != "cmp" || !strings.Contains(c.Key(), "idiv(") || !strings.Contains(c.Key(), "GlobalVarsMain.IZM") {
+						return false
+					}
+					P := stripVersions(c.P)
+					rest := P.Sub(X)
+					restN := P.Add(X)
+					one := func(q Poly, neg bool) bool {
+						t := q.single()
+						if t == nil || len(t.M) != 1 || t.M[0].A.Fn != "idiv" {
+							return false
+						}
+						if neg {
+							return t.C.Cmp(ratInt(-1)) == 0
+						}
+						return t.C.Cmp(ratInt(1)) == 0
+					}
+					return (one(rest, true) && c.Op == token.LSS) || (one(restN, false) && c.Op == token.GTR)
+				})
+				if isClamp {
+					clamp = e
+				} else if e.Seq > lastOther {
+					lastOther = e.Seq
+				}
+			}
+			ok := clamp != nil && clamp.Seq > lastOther
+			if ok && lastOther >= 0 {
+				// the clamp is reached whenever a store was: besides its own test it has no guard, or the function's stores share them
+				n := 0
+				for _, g := range flattenGuards(clamp.Guards) {
+					if !g.Loop && !(strings.Contains(g.Key(), "idiv(") && strings.Contains(g.Key(), "GlobalVarsMain.IZM")) {
+						n++
+					}
+				}
+				ok = n == 0
+			}
+			pos := p.Pos(w.Decl.Pos())
+			if clamp != nil {
+				pos = p.Pos(clamp.Pos)
+			}
+			r.Ob("depth-in-profile:"+short(w.Key), pos, ok, fmt.Sprintf("%s sets the mineralisation depth; its last store is the clamp to the profile, reached unconditionally: %v", short(w.Key), ok))
+		}
+	}
 	_, ends := forkBody(p, fi, L.Stmt)
 	src, pools, own, idxs := &pathSummary{}, &pathSummary{}, &pathSummary{}, &pathSummary{}
 	cell0 := func(root string, idx ...Poly) Poly { return cellP(root, idx...) }
@@ -365,6 +437,39 @@ func nmoveSweeps(p *Prog, r *Report, rule string) {
 	}
 	if nf == 0 {
 		r.Ob("fixation:credit", "-", false, "no fixation credit found")
+	}
+	// the amount credited is today's fixation: every store to the hand-over variable sets it to the fixation just
+	// computed (no dependence on its own previous value: a pending amount would be credited to another day or crop),
+	// and only the crop routine writes it
+	{
+		nS, okS := 0, true
+		det := ""
+		for _, w := range p.Fields().Writers(FieldRef{"GlobalVarsMain", "SCHNORR"}) {
+			if strings.HasPrefix(w.Key, "hermes.NewDefault") || w.Key == "hermes.NewGlobalVarsMain" {
+				continue
+			}
+			wx := walked(p, w.Key)
+			if wx == nil {
+				okS = false
+				det += w.Key + " (not analysable); "
+				continue
+			}
+			for _, e := range wx.Events {
+				if e.Kind != "assign" || e.Root != "GlobalVarsMain.SCHNORR" {
+					continue
+				}
+				nS++
+				v := stripVersions(e.Val)
+				if w.Key == "hermes.Init" && v.IsZero() {
+					continue
+				}
+				if w.Key != "hermes.PhytoOut" || !v.Equal(cellP("GlobalVarsMain.NFIX")) {
+					okS = false
+					det += fmt.Sprintf("%s: SCHNORR = %s at %s; ", strings.TrimPrefix(w.Key, "hermes."), clip(v.String(), 60), p.Pos(e.Pos))
+				}
+			}
+		}
+		r.Ob("fixation:fresh", "-", okS && nS >= 1, fmt.Sprintf("%d store(s) of the fixation hand-over variable, each 'today's fixation' in the crop routine: %s", nS, orStr(det, "ok")))
 	}
 	// leaching through the profile bottom: booked on the arm 'flux at the reporting depth is downward ∧ reporting depth is the bottom'
 	okLeach := false
